@@ -51,6 +51,180 @@ pub fn check_spec(prop: &str) -> Option<CheckSpec> {
     })
 }
 
+/// `plsim selftest`: stub fidelity and determinism of the simulator itself (exit 2 on failure).
 pub fn selftest() -> i32 {
-    0
+    let mut failures: Vec<String> = vec![];
+    // 1. overlay
+    if super::OVERLAY_SUBSTITUTIONS != 6 {
+        failures.push(format!("overlay made {} substitutions of std::sync::Mutex in fixtures/mod.rs, expected 6", super::OVERLAY_SUBSTITUTIONS));
+    }
+    // 2. lock admission rule of dashmap 6.1.0's lock, replayed against the stub
+    failures.extend(lock_admission_table());
+    // 3. interposed getrandom: std HashMap iteration order is a function of the hash seed
+    {
+        let order = |hs: u64| -> Vec<u32> {
+            let cfg = simrt::Cfg { hash_seed: hs, ..Default::default() };
+            let (_, r) = simrt::run(cfg, || {
+                let mut m = std::collections::HashMap::new();
+                for i in 0..64u32 {
+                    m.insert(format!("k{}", i), i);
+                }
+                m.values().copied().collect::<Vec<u32>>()
+            });
+            r.unwrap_or_default()
+        };
+        if order(7) != order(7) {
+            failures.push("std HashMap iteration order differs between two runs with the same hash seed (getrandom interposition not effective)".into());
+        }
+        if (1..6).all(|s| order(s) == order(7)) {
+            failures.push("std HashMap iteration order does not depend on the hash seed".into());
+        }
+    }
+    // 4. determinism: run seeds twice (16 threads), then a subset again on one thread
+    let t0 = std::time::Instant::now();
+    let scen: Vec<Box<dyn super::batch::Scenario>> = vec![
+        Box::new(super::scen_race::Race),
+        Box::new(super::scen_resolve::Resolve { variant: "imports" }),
+        Box::new(super::scen_order::Order { variant: "imports" }),
+        Box::new(super::scen_history::History { prop: "C07" }),
+        Box::new(super::scen_scanedit::ScanEdit),
+        Box::new(super::scen_diag::Diag),
+        Box::new(super::scen_chaos::Chaos { full_stack: true }),
+        Box::new(super::scen_locks::Locks { cyclic: false }),
+        Box::new(super::scen_discover::Discover { faults: true }),
+    ];
+    let n: u64 = std::env::var("PLSIM_SELFTEST_SEEDS").ok().and_then(|s| s.parse().ok()).unwrap_or(120);
+    let mut total = 0u64;
+    for s in &scen {
+        let digests = std::sync::Mutex::new(std::collections::BTreeMap::new());
+        let next = std::sync::atomic::AtomicU64::new(0);
+        std::thread::scope(|sc| {
+            for _ in 0..16 {
+                sc.spawn(|| loop {
+                    let i = next.fetch_add(1, std::sync::atomic::Ordering::SeqCst);
+                    if i >= n {
+                        break;
+                    }
+                    let seed = super::util::mix(0x5e1f7e57, i);
+                    let input = s.gen(seed, super::batch::Tier::Quick);
+                    let a = s.exec(&input);
+                    let b = s.exec(&input);
+                    digests.lock().unwrap().insert(i, (a.log_hash, a.state_hash, a.violations.len(), b.log_hash, b.state_hash, b.violations.len(), a.harness_error.clone()));
+                });
+            }
+        });
+        let d = digests.into_inner().unwrap();
+        for (i, (al, as_, av, bl, bs, bv, he)) in &d {
+            if let Some(e) = he {
+                failures.push(format!("{} seed #{}: harness error {}", s.name(), i, e));
+            }
+            if (al, as_, av) != (bl, bs, bv) {
+                failures.push(format!("{} seed #{}: two executions differ (log {:x}/{:x} state {:x}/{:x} violations {}/{})", s.name(), i, al, bl, as_, bs, av, bv));
+            }
+        }
+        // single-threaded re-run of a subset must give the same digests
+        for i in 0..(n / 10).max(3) {
+            let seed = super::util::mix(0x5e1f7e57, i);
+            let input = s.gen(seed, super::batch::Tier::Quick);
+            let c = s.exec(&input);
+            if let Some((al, as_, av, ..)) = d.get(&i) {
+                if (*al, *as_, *av) != (c.log_hash, c.state_hash, c.violations.len()) {
+                    failures.push(format!("{} seed #{}: result depends on the number of driver threads", s.name(), i));
+                }
+            }
+        }
+        total += 2 * n + (n / 10).max(3);
+    }
+    println!("plsim selftest: {} executions over {} scenarios in {:.1}s, overlay substitutions {}, {} failure(s)", total, scen.len(), t0.elapsed().as_secs_f64(), super::OVERLAY_SUBSTITUTIONS, failures.len());
+    for f in failures.iter().take(10) {
+        eprintln!("SELFTEST-FAILURE: {}", f);
+    }
+    if failures.is_empty() {
+        0
+    } else {
+        2
+    }
+}
+
+/// The reader/writer admission cases of dashmap 6.1.0's `lock.rs`, checked against the stub.
+fn lock_admission_table() -> Vec<String> {
+    use std::sync::Arc;
+    type L = lock_api::RwLock<simrt::RawRwLock, u32>;
+    let mut fails = vec![];
+    // case A: a reader is admitted while a writer is *waiting* (not holding)
+    let (oc, r) = simrt::run(simrt::Cfg { strategy: simrt::Strategy::Random { switch_per_mille: 0 }, ..Default::default() }, || {
+        let l = Arc::new(L::new(0));
+        let g1 = l.read();
+        let l2 = l.clone();
+        let w = simrt::spawn(move || {
+            let mut g = l2.write();
+            *g += 1;
+        });
+        // give the writer the chance to block
+        for _ in 0..50 {
+            simrt::user_yield(1);
+        }
+        let g2 = l.read(); // must not block although a writer waits
+        let v = *g2;
+        drop(g2);
+        drop(g1);
+        w.join();
+        let end = *l.read();
+        (v, end)
+    });
+    if oc.abort.is_some() || r != Some((0, 1)) {
+        fails.push(format!("lock case A (reader admitted past waiting writer) failed: abort={:?} result={:?}", oc.abort.map(|a| a.detail), r));
+    }
+    // case B: a writer waits for readers; read-inside-write on the same lock self-deadlocks
+    let (oc, _) = simrt::run(simrt::Cfg::default(), || {
+        let l = Arc::new(L::new(0));
+        let _w = l.write();
+        let _r = l.read();
+    });
+    if oc.abort.as_ref().map(|a| a.kind.clone()) != Some(simrt::AbortKind::Deadlock) {
+        fails.push("lock case B (read while holding write on the same lock must be reported as self-deadlock) failed".into());
+    }
+    // case C: write-inside-read on the same lock self-deadlocks; read-inside-read does not
+    let (oc, _) = simrt::run(simrt::Cfg::default(), || {
+        let l = Arc::new(L::new(0));
+        let _r = l.read();
+        let _r2 = l.read();
+    });
+    if oc.abort.is_some() {
+        fails.push("lock case C1 (nested reads must be admitted) failed".into());
+    }
+    let (oc, _) = simrt::run(simrt::Cfg::default(), || {
+        let l = Arc::new(L::new(0));
+        let _r = l.read();
+        let _w = l.write();
+    });
+    if oc.abort.as_ref().map(|a| a.kind.clone()) != Some(simrt::AbortKind::Deadlock) {
+        fails.push("lock case C2 (write while holding read on the same lock must be reported as self-deadlock) failed".into());
+    }
+    // case D: two threads taking two locks in opposite order deadlock in some schedule
+    let mut found = false;
+    for seed in 0..200u64 {
+        let (oc, _) = simrt::run(simrt::Cfg { seed, strategy: simrt::Strategy::Random { switch_per_mille: 400 }, ..Default::default() }, || {
+            let a = Arc::new(L::new(0));
+            let b = Arc::new(L::new(0));
+            let (a2, b2) = (a.clone(), b.clone());
+            let t = simrt::spawn(move || {
+                let _x = a2.write();
+                let _y = b2.write();
+            });
+            {
+                let _y = b.write();
+                let _x = a.write();
+            }
+            t.join();
+        });
+        if oc.abort.as_ref().map(|a| a.kind.clone()) == Some(simrt::AbortKind::Deadlock) {
+            found = true;
+            break;
+        }
+    }
+    if !found {
+        fails.push("lock case D (AB/BA deadlock must be found within 200 seeds) failed".into());
+    }
+    fails
 }
